@@ -819,7 +819,7 @@ func VH_template(which int) {
 func VH_reserved() {
 	which := verifChoice(len(refReserved))
 	name := refReserved[which]
-	shape := verifChoice(7)
+	shape := verifChoice(9)
 	res := token.Token{Type: token.IDENTIFIER, Lexeme: name, Line: 1}
 	LB, RB := token.LEFT_BRACKET, token.RIGHT_BRACKET
 	var toks []token.Token
@@ -836,6 +836,10 @@ func VH_reserved() {
 		toks = []token.Token{mkTok(0, token.VAR), res, mkTok(2, token.EQUAL), mkTok(3, token.LEFT_BRACE), mkTok(4, token.IDENTIFIER), mkTok(5, token.COLON), mkTok(6, token.NUMBER), mkTok(7, token.RIGHT_BRACE), mkTok(8, token.SEMICOLON)}
 	case 5: // var a = 1 , NAME = [ ] ;
 		toks = []token.Token{mkTok(0, token.VAR), mkTok(1, token.IDENTIFIER), mkTok(2, token.EQUAL), mkTok(3, token.NUMBER), mkTok(4, token.COMMA), res, mkTok(6, token.EQUAL), mkTok(7, LB), mkTok(8, RB), mkTok(9, token.SEMICOLON)}
+	case 7: // fun NAME ( a ) { b h }  — a second fault later in the same declaration: the name is still the first
+		toks = []token.Token{mkTok(0, token.FUN), res, mkTok(2, token.LEFT_PAREN), mkTok(3, token.IDENTIFIER), mkTok(4, token.RIGHT_PAREN), mkTok(5, token.LEFT_BRACE), mkTok(6, token.IDENTIFIER), mkTok(7, anyType()), mkTok(8, token.RIGHT_BRACE)}
+	case 8: // fun NAME ( a h b ) { }
+		toks = []token.Token{mkTok(0, token.FUN), res, mkTok(2, token.LEFT_PAREN), mkTok(3, token.IDENTIFIER), mkTok(4, anyType()), mkTok(5, token.IDENTIFIER), mkTok(6, token.RIGHT_PAREN), mkTok(7, token.LEFT_BRACE), mkTok(8, token.RIGHT_BRACE)}
 	default: // for ( var NAME = { } ; ; ) a ;
 		toks = []token.Token{mkTok(0, token.FOR), mkTok(1, token.LEFT_PAREN), mkTok(2, token.VAR), res, mkTok(4, token.EQUAL), mkTok(5, token.LEFT_BRACE), mkTok(6, token.RIGHT_BRACE), mkTok(7, token.SEMICOLON), mkTok(8, token.SEMICOLON), mkTok(9, token.RIGHT_PAREN), mkTok(10, token.IDENTIFIER), mkTok(11, token.SEMICOLON)}
 	}
